@@ -23,7 +23,7 @@ THOROUGH_S = 420
 BATCH = 6
 RULE = ('one evaluation = one seeded run: 4-20 values drawn from the picklable domain (ints of any magnitude, floats incl. -0.0/inf/nan, '
         'text over all code-point classes incl. CR, LF, NUL, every str.splitlines separator, U+FEFF/U+FFFE (biased to the first and last position), combining and astral characters, uniformly random code points and lone surrogates, bytes, None/bool, nested '
-        'containers, byte streams with seeded short reads) at lengths threshold-1/threshold/threshold+1 (and once per batch beyond the '
+        'containers, containers with shared sub-objects and with cycles (compared as object graphs), byte streams with seeded short reads) at lengths threshold-1/threshold/threshold+1 (and once per batch beyond the '
         '4 MiB stream chunk) x disk_min_file_size in {0,1,8,64,32768} x pickle protocol 0-5 x Disk/JSONDisk, each stored through one '
         'of set/add/[]=/push/Deque.append(left)/Deque[]=/Index[]=/Index.setdefault/set(read=True) and read back through every accessor '
         'that applies (get, [], read, peek, peekitem, Deque/Index element access; after a simulated restart; then pop/pull/popitem); in '
@@ -31,7 +31,7 @@ RULE = ('one evaluation = one seeded run: 4-20 values drawn from the picklable d
         'an exception and no trace of the key; non-trivial = at least one file-backed value round-tripped; distinct = SHA-256 of the case')
 ASSUMPTIONS = ['this property is mostly a function of the input; the simulator contributes the stream, fault and restart dimensions, the value sweep is generative differential testing on the same runs',
                'JSONDisk is exercised with JSON-stable values only (no tuples, no byte strings, no streams)']
-PROBES = ('file_backed', 'stream_values', 'short_reads', 'rejected_values', 'restart_reads', 'oserr', 'chunk_boundary')
+PROBES = ('file_backed', 'stream_values', 'short_reads', 'rejected_values', 'restart_reads', 'oserr', 'chunk_boundary', 'shared_or_cyclic_values')
 TECHNIQUE = 'deterministic simulation of the storage path (seeded short reads, injected file-system and stream errors, simulated restart) + generative round-trip comparison over the value domain'
 LEVEL_TEXT = ('seeded exploration of values x thresholds x serializer settings x store/read paths, with the I/O side under the simulator '
               '(streams that return short reads, one failing file-system call, process restart between write and read); round trips are '
@@ -87,14 +87,57 @@ def gen_value(rng, mfs, json_ok):
                                {'l': [{'txt': [ord(c) for c in gen_text(rng, rng.choice((3, mfs + 2)))]}]}))
         else:
             spec = rng.choice(({'l': inner}, {'t': inner}, {'d': [['k', {'t': [1, 2]}], [7, {'b': '00ff'}]]}, {'fs': [1, 2, 3]},
-                               {'t': []}, {'l': [{'b': 'aa' * rng.choice((1, mfs + 2))}]}, {'big': ['pickle', max(10, n), 'p']}))
+                               {'t': []}, {'l': [{'b': 'aa' * rng.choice((1, mfs + 2))}]}, {'big': ['pickle', max(10, n), 'p']},
+                               # one object reachable by two paths, and objects that contain themselves: the same GRAPH comes back
+                               {'graph': ['alias', rng.choice((1, mfs + 2))]}, {'graph': ['diamond', rng.choice((2, 6))]},
+                               {'graph': ['cycle-list', 0]}, {'graph': ['cycle-dict', rng.choice((1, mfs + 2))]}))
         return spec, 'container'
     if json_ok:
         return {'txt': [ord(c) for c in gen_text(rng, n)]}, 'text'
     return {'big': ['bytes', max(1, n), 's%d' % rng.randrange(1000)]}, 'stream'
 
 
+def build_graph(kind, n):
+    if kind == 'alias':
+        x = ['x' * n, 1]
+        return {'a': x, 'b': x, 'c': (x, [x])}
+    if kind == 'diamond':
+        node = ['leaf']
+        for _ in range(n):
+            node = [node, node]
+        return node
+    if kind == 'cycle-list':
+        x = [1, 'x']
+        x.append(x)
+        return x
+    d = {'pad': 'y' * n}
+    d['self'] = d
+    d['pair'] = (d, [d])
+    return d
+
+
+def graph_same(a, b, fwd=None, back=None):
+    """Same structure AND same sharing: an isomorphism of the two object graphs (containers by identity)."""
+    if fwd is None:
+        fwd, back = {}, {}
+    if type(a) is not type(b):
+        return False
+    if isinstance(a, (list, tuple, dict)):
+        if id(a) in fwd or id(b) in back:
+            return fwd.get(id(a)) == id(b) and back.get(id(b)) == id(a)
+        fwd[id(a)] = id(b)
+        back[id(b)] = id(a)
+        if len(a) != len(b):
+            return False
+        if isinstance(a, dict):
+            return all(ka == kb and graph_same(va, vb, fwd, back) for (ka, va), (kb, vb) in zip(a.items(), b.items()))
+        return all(graph_same(x, y, fwd, back) for x, y in zip(a, b))
+    return vals.same(a, b)
+
+
 def dec(spec):
+    if isinstance(spec, dict) and 'graph' in spec:
+        return build_graph(*spec['graph'])
     if isinstance(spec, dict) and 'txt' in spec:
         return ''.join(chr(c) for c in spec['txt'])
     if isinstance(spec, dict) and 'ba' in spec:
@@ -178,7 +221,10 @@ def run_case(case):
             probes['restart_reads'] = probes.get('restart_reads', 0) + 1
 
         def check(got, want, step, via):
-            if not vals.same(got, want):
+            is_graph = isinstance(step['v'], dict) and 'graph' in step['v']
+            if is_graph:
+                probes['shared_or_cyclic_values'] = probes.get('shared_or_cyclic_values', 0) + 1
+            if not (graph_same(got, want) if is_graph else vals.same(got, want)):
                 bad('value-altered', '%s:%s' % (step['kind'], via.split('@')[0]),
                     'stored %s via %s, read back %s via %s (threshold %d, protocol %d, %s)' % (
                         vals.brief(want), step['how'], vals.brief(got), via, cfg['mfs'], cfg['proto'], 'JSONDisk' if cfg['json'] else 'Disk'))
